@@ -19,7 +19,13 @@ import (
 var Runner = core.Runner{Gen: Gen, Eval: dnsops.Eval}
 
 func add(c *core.Ctx, class, line string) {
-	if cs := dnsops.Eval(c, line); cs != nil && !dnsimpl.Skipped(cs.Impl) {
+	cs := dnsops.Eval(c, line)
+	switch {
+	case cs == nil:
+		c.Drop(class, "not evaluated")
+	case dnsimpl.Skipped(cs.Impl):
+		c.Drop(class, "skipped: hang budget of the operation spent")
+	default:
 		cs.Class = class
 		c.Add(*cs)
 	}
@@ -52,8 +58,7 @@ func Gen(c *core.Ctx) {
 	full := func(op string, b g.Built, i int, nameOps bool) {
 		add(c, op, op+" "+core.Hex(b.Bytes))
 		if i%6 == 0 {
-			step := 1 + r.Intn(c.Scale(3, 1))
-			for cut := 0; cut < len(b.Bytes); cut += step {
+			for cut := 0; cut < len(b.Bytes); cut++ { // every offset
 				add(c, op+"-trunc", op+" "+core.Hex(b.Bytes[:cut]))
 			}
 		}
@@ -64,6 +69,7 @@ func Gen(c *core.Ctx) {
 					add(c, "dns-corrupt", fmt.Sprintf("dns.name %s %d", core.Hex(cm), b.Marks.NameOff[r.Intn(len(b.Marks.NameOff))]))
 					add(c, "dns-corrupt", fmt.Sprintf("dns.rrs %d %d %s", 1+r.Intn(3), b.AnOff, core.Hex(cm)))
 					add(c, "dns-corrupt", "dns.process "+core.Hex(cm))
+					add(c, "dns-corrupt", fmt.Sprintf("dns.answers0 %d %s", b.AnOff, core.Hex(cm)))
 				}
 			}
 		}
@@ -251,6 +257,7 @@ func Gen(c *core.Ctx) {
 		add(c, "noise", fmt.Sprintf("dns.question %s %d", h, 12))
 		add(c, "noise", fmt.Sprintf("dns.rrs %d %d %s", r.Intn(5), 12, h))
 		add(c, "noise", fmt.Sprintf("dns.answers %d %s", 12, h))
+		add(c, "noise", fmt.Sprintf("dns.answers0 %d %s", 12, h))
 		add(c, "noise", "nbns.names "+h)
 		add(c, "noise", "ssdp "+h)
 	}
